@@ -20,7 +20,10 @@ def one(n):
         env = dict(os.environ, VERIF_REPO=repo, VERIF_DB_FROM="/repo", VERIF_NO_EVIDENCE="1", VERIF_REPORT_DIR=os.path.join(scratch, "reports"))
         res = {}
         for p in props:
-            out = subprocess.run([os.path.join(V, "check"), p], capture_output=True, text=True, env=env)
+            try:
+                out = subprocess.run([os.path.join(V, "check"), p], capture_output=True, text=True, env=env, timeout=300)
+            except subprocess.TimeoutExpired:
+                out = subprocess.CompletedProcess([], 2, "ANALYSIS-INCONCLUSIVE property=%s rule=analysis instance=timeout at : the check did not finish in 300 s\n" % p, "")
             if out.returncode != 0:
                 lines = [l.strip()[:260] for l in out.stdout.splitlines() if (l.startswith("  ") and not l.startswith("      ")) or l.startswith("ANALYSIS-INCONCLUSIVE")]
                 res[p] = (out.returncode, lines[:4])
